@@ -8,6 +8,7 @@ import StyluaModel.Lemmas.Block
 import StyluaModel.Lemmas.SortReq
 import StyluaModel.Lemmas.Paren
 import StyluaModel.Lemmas.Trivia
+import StyluaModel.Lemmas.ParenIdem
 
 namespace StyluaModel.C06
 open StyluaModel
@@ -67,7 +68,21 @@ theorem C06_comment_text (t : List Char) (h : TriviaLemmas.noLoneCR t = true) :
   simp only [Trivia.fmtText, StrLit.rewriteLong, TriviaLemmas.lfToEol_lf]
   exact TriviaLemmas.crlfToLf_noCR _ (TriviaLemmas.noCR_crlfToLf t h)
 
-/-- **parentheses are NOT idempotent in general** — found by evaluating the model, confirmed on
+/-- **the parenthesis rule is idempotent** on every expression without a `- -` pair, in every
+context: formatting the formatted tree again drops and adds nothing. (All sizes; the single-line
+path, which is also what the second pass runs on an output that fitted.) -/
+theorem C06_paren_idem (ctx : ParenRule.Ctx) (e : Expr) (h : ParenIdem.noMM e = true) :
+    ParenRule.fmtS ParenRule.repaired ctx (ParenRule.fmtS ParenRule.repaired ctx e)
+      = ParenRule.fmtS ParenRule.repaired ctx e :=
+  ParenIdem.fmtS_idem e h ctx
+
+/-- in particular on every tree that is read back as itself from its own tight printing -/
+theorem C06_paren_idem_faithful (ctx : ParenRule.Ctx) (e : Expr) (h : Prec.faithful e = true) :
+    ParenRule.fmtS ParenRule.repaired ctx (ParenRule.fmtS ParenRule.repaired ctx e)
+      = ParenRule.fmtS ParenRule.repaired ctx e :=
+  ParenIdem.fmtS_idem e (ParenIdem.noMM_of_faithful e h) ctx
+
+/-- **the hypothesis is needed: with a source `- -` pair parentheses are NOT idempotent** — found by evaluating the model, confirmed on
 the real code: `(- -f())` → `(-(-f()))` → `-((-f()))`. The first pass keeps the outer pair
 (its content hides a call), adds the `- -` guard pair inside; the second pass then sees
 "parentheses inside parentheses" and drops the outer pair. (Known finding D32.) -/
